@@ -80,8 +80,24 @@ impl Backend {
                 continue;
             }
 
-            // Look up return type from pre-computed map
-            if let Some(&return_type) = fixture_map.get(usage.name.as_str()) {
+            // A fixture that overrides a same-named fixture and requests it (`def db(db)`)
+            // receives the outer fixture, not itself: show the type of the definition that
+            // go-to-definition selects for that parameter.
+            let outer_type = self
+                .fixture_db
+                .get_fixture_definition_enclosing_line(&file_path, usage.line, &usage.name)
+                .map(|own| {
+                    self.fixture_db
+                        .find_closest_definition_excluding(&file_path, &usage.name, Some(&own))
+                        .and_then(|outer| outer.return_type)
+                });
+            let return_type = match &outer_type {
+                Some(outer) => outer.as_deref(),
+                // Look up return type from pre-computed map
+                None => fixture_map.get(usage.name.as_str()).copied(),
+            };
+
+            if let Some(return_type) = return_type {
                 // Check if this parameter already has a type annotation
                 // by looking at the text after the parameter name in the current buffer
                 if parameter_has_annotation(&lines, usage.line, usage.end_char) {
